@@ -444,6 +444,89 @@ func c16During(tier string, i int) CaseResult {
 	return cr
 }
 
+// c16StdioRestart: the stdio client's own way of starting over. The server process exits on its own
+// (and is reaped: exec.Cmd.Wait closes the parent's pipe ends) or not, then the application calls
+// RestartProcess or Close. Whatever those return, the client is uninitialized afterwards: GetState
+// says so, an operation fails with the not-initialized error without traffic, and a new Initialize
+// is not refused as a second handshake.
+func c16StdioRestart(tier string, i int) CaseResult {
+	hist := [][]string{{"restart"}, {"child-exit", "restart"}, {"child-exit", "close"}, {"child-exit", "restart", "restart"}, {"restart", "close"}, {"child-exit", "close", "restart"}}[i]
+	cr := CaseResult{Desc: "client=io history=init-ok " + strings.Join(hist, " "), Nontrivial: true}
+	var viol []explore.Violation
+	obs := &hx.Log{}
+	k := func(s string) string { return fmt.Sprintf("%s:io:%s", s, strings.Join(hist, "+")) }
+	res := vsched.Run(vsched.Config{}, func() {
+		ss := newScriptedServer("io")
+		cl0, err := ss.connect()
+		if err != nil {
+			viol = append(viol, V("setup-handshake-fails", "setting the scenario up with well-behaved peers fails: %v", err))
+			return
+		}
+		cl := cl0.(*mcp.StdioClient)
+		ctx := context.Background()
+		for _, ev := range hist {
+			done := &hx.Flag{}
+			var evErr error
+			vsched.Go("step-"+ev, func() {
+				defer done.Set()
+				switch ev {
+				case "child-exit":
+					ss.stop() // the child's stdout ends
+					if ss.childExit != nil {
+						ss.childExit() // the process watcher notices
+					}
+					// exec.Cmd.Wait closes the parent's ends of StdinPipe / StdoutPipe once the child is reaped
+					memnet.WEnd{P: ss.c2s}.Close()
+					memnet.REnd{P: ss.s2c}.Close()
+				case "restart":
+					evErr = cl.RestartProcess(ctx) // (there is no program to start under the harness: it fails after the old process is closed)
+				case "close":
+					evErr = cl.Close()
+				}
+			})
+			vsched.Quiesce()
+			if !done.Get() {
+				viol = append(viol, V(k("hangs"), "%s never returned; blocked: %v", ev, vsched.LiveThreads()))
+				return
+			}
+			obs.Add("%s err=%v", ev, evErr != nil)
+		}
+		before := len(ss.received)
+		if st := cl.GetState(); st == mcp.StateInitialized {
+			viol = append(viol, V(k("state"), "after init-ok %s GetState() still reports %q", strings.Join(hist, " "), st))
+		}
+		_, opErr := cl.ListTools(ctx, &mcp.ListToolsRequest{})
+		if opErr == nil || !strings.Contains(strings.ToLower(opErr.Error()), "not initialized") {
+			viol = append(viol, V(k("op-after-restart"), "after init-ok %s an operation must fail with the not-initialized error, got %v", strings.Join(hist, " "), opErr))
+		}
+		if n := len(ss.received) - before; n != 0 {
+			viol = append(viol, V(k("traffic-after-restart"), "%d messages were sent by a client that is not initialized", n))
+		}
+		idone := &hx.Flag{}
+		var ierr error
+		vsched.Go("init-again", func() { _, ierr = cl.Initialize(ctx, &mcp.InitializeRequest{}); idone.Set() })
+		vsched.Quiesce()
+		if !idone.Get() {
+			vsched.Sleep(61e9)
+			vsched.Quiesce()
+		}
+		if idone.Get() && ierr != nil && strings.Contains(strings.ToLower(ierr.Error()), "already initialized") {
+			viol = append(viol, V(k("init-refused-as-second-handshake"), "after init-ok %s a new Initialize is refused as a second handshake: %v", strings.Join(hist, " "), ierr))
+		}
+		cl.Close()
+	})
+	o := finishOutcome(res, obs, viol, true)
+	cr.ObsKey = cr.Desc + o.ObsKey
+	cr.Violations = o.Violations
+	cr.Broken = o.Broken
+	return cr
+}
+
+func init() {
+	RegisterEnum(&Enum{Name: "c16/stdio-restart", Doc: "stdio client: after a successful handshake the server process exits (and is reaped) or not, then RestartProcess / Close in six orders: the client is uninitialized afterwards (GetState, not-initialized error without traffic, a new Initialize is not refused as a second handshake)",
+		Count: func(string) int { return 6 }, Eval: c16StdioRestart})
+}
+
 func init() {
 	RegisterEnum(&Enum{Name: "c16/during-handshake", Doc: "operations issued from another goroutine while Initialize waits for the server's answer, on the 4 client flavours: not-initialized error, no traffic, state not initialized",
 		Count: func(string) int { return 4 }, Eval: c16During})
@@ -458,6 +541,7 @@ func init() {
 		c.Enumerate("c16/server")
 		c.Enumerate("c16/client")
 		c.Enumerate("c16/during-handshake")
+		c.Enumerate("c16/stdio-restart")
 	})
 	_ = hx.Nop{}
 }
